@@ -111,15 +111,15 @@ func Implies(a, b T) T {
 	}
 	return App(Bool, "=>", a, b)
 }
-func Eq(a, b T) T         { return App(Bool, "=", a, b) }
-func Ite(c, a, b T) T     { return App(a.Sort, "ite", c, a, b) }
-func Lt(a, b T) T         { return App(Bool, "<", a, b) }
-func Le(a, b T) T         { return App(Bool, "<=", a, b) }
-func Add(a, b T) T        { return App(Int, "+", a, b) }
-func Sub(a, b T) T        { return App(Int, "-", a, b) }
-func Mul(a, b T) T        { return App(Int, "*", a, b) }
-func Select(a, i T) T     { return App(elemSort(a.Sort), "select", a, i) }
-func Store(a, i, v T) T   { return App(a.Sort, "store", a, i, v) }
+func Eq(a, b T) T                  { return App(Bool, "=", a, b) }
+func Ite(c, a, b T) T              { return App(a.Sort, "ite", c, a, b) }
+func Lt(a, b T) T                  { return App(Bool, "<", a, b) }
+func Le(a, b T) T                  { return App(Bool, "<=", a, b) }
+func Add(a, b T) T                 { return App(Int, "+", a, b) }
+func Sub(a, b T) T                 { return App(Int, "-", a, b) }
+func Mul(a, b T) T                 { return App(Int, "*", a, b) }
+func Select(a, i T) T              { return App(elemSort(a.Sort), "select", a, i) }
+func Store(a, i, v T) T            { return App(a.Sort, "store", a, i, v) }
 func ArraySort(i, e string) string { return "(Array " + i + " " + e + ")" }
 
 // elemSort returns the element sort of "(Array I E)".
